@@ -12,7 +12,7 @@ git -C /repo worktree add -q --detach "$W" HEAD || exit 3
 trap 'git -C /repo worktree remove --force "$W" >/dev/null 2>&1; rm -rf /verif/bin/*-$(echo "$W" | md5sum | cut -c1-8)*' EXIT
 cd "$W"
 for f in "$SRC"/*_test.go "$SRC"/demo/*; do [ -f "$f" ] || continue
-  dest=$(head -3 "$f" | grep -o '<repo root>/[A-Za-z0-9_./-]*' | head -1 | sed 's#<repo root>/##; s#[.]$##')
+  dest=$(head -4 "$f" | grep -o '[A-Za-z0-9_./<> -]*_test\.go' | head -1 | sed 's#.*<repo root>/##; s#^.* ##')
   [ -n "$dest" ] || dest=$(basename "$f")
   mkdir -p "$(dirname "$dest")"; cp "$f" "$dest"
 done
@@ -24,7 +24,7 @@ git apply "$SRC/patch.diff" || { echo "patch does not apply"; exit 3; }
 if eval "$RUN" >/tmp/seed-$ID-patched.log 2>&1; then echo "demo on patched tree: PASS (unexpected)"; else echo "demo on patched tree: FAIL (expected)"; fi
 go build ./... && go build -tags verif ./... && echo "builds: ok"
 # baseline (guard off) must still pass
-rm -f $(ls "$SRC"/*_test.go | xargs -n1 basename) 2>/dev/null
+git status --porcelain | grep '^??' | awk '{print $2}' | xargs -r rm -rf
 go test -vet=off -count=1 . ./http/... ./internal/... ./lfsc/... >/tmp/seed-$ID-base.log 2>&1 && echo "baseline packages: ok" || { echo "baseline packages: FAIL"; tail -5 /tmp/seed-$ID-base.log; }
 mkdir -p "$W.out"; cp /verif/known_findings.json "$W.out/"
 for c in $CHECKS; do
